@@ -315,19 +315,8 @@ def rule_register(facts, rep):
     rep.check(all(n == 1 for n in n_store) and all(p.exit == "value" for p in paths), "atomic", sb["path"], "one-store-on-every-path", f"{n_store}", loc(sb))
     fc = facts.body("colorchoice", "colorchoice::AtomicChoice::from_choice")
     tc = facts.body("colorchoice", "colorchoice::AtomicChoice::to_choice")
-    enc, dec = {}, {}
-    m = ac.single_expr(fc["hir"])
-    for a in m.get("arms", []):
-        for alt in hir.pat_alternatives(a["pat"]):
-            if alt.get("k") == "ppath":
-                enc[alt["path"].split("::")[-1]] = hir.lit_val(a["body"])
-    m = ac.single_expr(tc["hir"])
-    for a in m.get("arms", []):
-        b = hir.simp(a["body"])
-        for v in hir.pat_ints(a["pat"]) or []:
-            if b.get("k") == "call" and b.get("ctor", "").endswith("Option::Some"):
-                dec[v] = hir.last_seg(hir.def_path(b["args"][0]))
-    ok = len(enc) == 4 and len(set(enc.values())) == 4 and all(dec.get(v) == k for k, v in enc.items()) and "guard" not in str([a.keys() for a in m.get("arms", [])])
+    enc, dec = ac.choice_codec(facts)
+    ok = len(enc) == 4 and len(set(enc.values())) == 4 and all(dec.get(v) == k for k, v in enc.items())
     rep.check(ok, "atomic", fc["path"], "to_choice(from_choice(c))=Some(c)-for-the-four-choices", f"{enc} / {dec}", loc(fc))
 
 
